@@ -4,6 +4,9 @@
    underflow, chunk boundaries invisible.  (Counterpart of XdlSMRefine for the XDL extensions.)               *)
 EXTENDS JsonTextXdl, XdlSM
 
+CONSTANT PinnedFlush     \* TRUE: decode() ends with parse(" ") as in the pinned tree - refuted by TLC with a document that ends in
+                         \* a line comment without newline (MC_XdlSMRefineXdl_defect.cfg, expected violation of SMAll)
+
 RECURSIVE SameVal(_, _)
 \* the machine stores members by name (assignment), the generator lists them in text order: compare as maps
 SameVal(a, b) ==
@@ -14,7 +17,7 @@ SameVal(a, b) ==
     ELSE a = b
 SMAgree == done => LET r == Decode(text) IN r.ok /\ SameVal(r.v, val)
 SMPrefix == (~done /\ Inside) => ~Decode(text).ok
-SMNoUnderflow == NoUnderflowS(Run(Run(SMInit, text), <<32>>))
+SMNoUnderflow == NoUnderflowS(Run(Run(SMInit, text), Flush))
 SMChunks == \A k \in 0..Len(text) :
                Run(Run(SMInit, SubSeq(text, 1, k)), SubSeq(text, k + 1, Len(text))) = Run(SMInit, text)
 
@@ -23,7 +26,7 @@ RECURSIVE PrefixStates(_, _, _)
 PrefixStates(s, t, i) == IF i > Len(t) THEN <<s>> ELSE <<s>> \o PrefixStates(Step(s, t[i]), t, i + 1)
 SMAll == LET ps == PrefixStates(SMInit, text, 1)                    \* ps[k+1] = state after the first k bytes
              full == ps[Len(text) + 1]
-             endst == Run(full, <<32>>)
+             endst == Run(full, IF PinnedFlush THEN FlushPinned ELSE Flush)
              r == Result(endst)
          IN /\ NoUnderflowS(endst)
             /\ done => (r.ok /\ SameVal(r.v, val))
